@@ -10,6 +10,7 @@ package main
 //   str slot 0: body text       str slot 1: content type
 
 import (
+	"fmt"
 	"go/types"
 	"reflect"
 	"strings"
@@ -102,6 +103,20 @@ func (fx *FX) jsonFactsOld(st *State, text T, path string, t types.Type, v Val, 
 				of = old.(VStruct).F[i]
 			}
 			fx.jsonFactsOld(st, text, p, f.Type(), sv.F[i], of, guard)
+		}
+	case *types.Slice:
+		// a []string member: a JSON array of strings, read by jarrlen(text, path) and jarrstr(text, path, k)
+		if b, isB := u.Elem().Underlying().(*types.Basic); isB && b.Info()&types.IsString != 0 {
+			if sv, isS := v.(VSlice); isS && old == nil {
+				key := fx.strLit(path)
+				fx.assume(guard, eq(app(SInt, "jarrlen", text, key), sv.Len))
+				arr := fx.def("jarr", sel(st.Hs, sv.Ref))
+				fx.line(fmt.Sprintf("(assert (=> %s (forall ((k!j Int)) (! (=> (and (<= 0 k!j) (< k!j %s)) (= (jarrstr %s %s k!j) (select %s (+ %s k!j)))) :pattern ((jarrstr %s %s k!j))))))",
+					guard.S, sv.Len.S, text.S, key.S, arr.S, sv.Off.S, text.S, key.S))
+				// the same fact triggered from the array side (no arithmetic in the pattern)
+				fx.line(fmt.Sprintf("(assert (=> %s (forall ((i!j Int)) (! (=> (and (<= %s i!j) (< i!j (+ %s %s))) (= (jarrstr %s %s (- i!j %s)) (select %s i!j))) :pattern ((select %s i!j))))))",
+					guard.S, sv.Off.S, sv.Off.S, sv.Len.S, text.S, key.S, sv.Off.S, arr.S, arr.S))
+			}
 		}
 	case *types.Pointer:
 		pv := v.(VPtr)
